@@ -623,9 +623,13 @@ def install(names=None):
 
         @_guard
         def post_tk(key, transpose_by, result):
-            if not isinstance(key, Key) or type(transpose_by) is not int:
+            import numbers
+            if not isinstance(key, Key) or not isinstance(transpose_by, numbers.Integral):
                 vac("transpose_key", "all")
                 return True
+            if type(transpose_by) is not int:
+                LOG.n("transpose_key.integer_of_another_type." + type(transpose_by).__name__)
+            transpose_by = int(transpose_by)     # "any integer": bool, IntEnum members and numpy integers are integers too
             rec("C20", "transpose_key", "returns_key", isinstance(result, Key), (key.value, transpose_by, result))
             if isinstance(result, Key):
                 rec("C20", "transpose_key", "tonic_shift", TONIC[result.value] == (TONIC[key.value] + transpose_by) % 12,
